@@ -96,6 +96,10 @@ def to_dict(m):
     d = {"task_uuid": m["uuid"], "task_level": list(m["level"]), "timestamp": 1.0, "body": m["body"]}
     if "atype" in m:
         d["action_type"] = m["atype"]
+        if m["body"] % 7 == 3:
+            # an ordinary field of an action message that happens to be called `message_type` (`start_action(action_type=..,
+            # message_type=..)`, a `log_call` parameter of that name): the parser tells action messages by `action_type` alone
+            d["message_type"] = "app:note"
     if "status" in m:
         d["action_status"] = m["status"]
     return d
